@@ -304,9 +304,22 @@ class Builder:
 
     def build_loop(self, sexpression, context, gate_context):
         count, block = sexpression.args
-        built_count = self.build(count, context, gate_context)
+        built_count = self.build_count(count, context, gate_context)
         built_block = self.build(block, context, gate_context)
         return LoopStatement(built_count, built_block)
+
+    def build_count(self, count, context, gate_context):
+        """Build the repetition count of a loop or subcircuit, which must
+        be an integer or a let constant or parameter standing for one."""
+        built_count = as_integer(self.build(count, context, gate_context))
+        if isinstance(built_count, Constant):
+            if as_integer(built_count.value) != built_count.value or isinstance(
+                as_integer(built_count.value), float
+            ):
+                raise JaqalError(f"Count {built_count.name} is not an integer")
+        elif not isinstance(built_count, (int, Parameter)):
+            raise JaqalError(f"Count {built_count} is not an integer")
+        return built_count
 
     def build_branch(self, sexpression, context, gate_context):
         cases = sexpression.args
@@ -332,10 +345,10 @@ class Builder:
         with self.in_block_context(context, "subcircuit"):
             statements = [self.build(arg, context, gate_context) for arg in args[1:]]
             count = args[0]
-            if count == "":
+            if count is None or count == "":
                 built_count = 1
             else:
-                built_count = self.build(count, context, gate_context)
+                built_count = self.build_count(count, context, gate_context)
         return BlockStatement(
             statements=statements, subcircuit=True, iterations=built_count
         )
